@@ -310,7 +310,7 @@ inductive RAns (S : Type) where
   | permFail
   | raised
   | hung
-  deriving Repr, Inhabited
+  deriving Repr, DecidableEq, Inhabited
 
 inductive Method where
   | get | post | patch | delete
